@@ -10,9 +10,9 @@ COMMON_NOTE = ("Trusted base: the pyvc AST->VC generator and its stated Python-s
                "mathematical reals (rounding, overflow, underflow are outside the proof). Closed world (15 expression classes, no monkey-patching). "
                "Add/Multiply: __init__, _reset_evaluation_cache, _evaluate, at, __eq__, __hash__, __repr__, all four derivative methods (both classes), "
                "the helpers math_functions.multiply / utilities.list_without_entry_at / list_with_updated_entry_at / partition_by_predicate / "
-               "first_match_by_predicate, eight of the twelve n-ary rewrite rules, the n-ary step driver and Add._normalize_fully_reduced are proved for a "
+               "first_match_by_predicate, eight of the twelve n-ary rewrite rules, the n-ary step driver and both _normalize_fully_reduced passes are proved for a "
                "symbolic arity (G-mode, unbounded; an undischarged symbolic-arity obligation is a NOTE, never a violation); the other Add/Multiply "
-               "obligations (four group-by consolidation rules, Multiply._normalize_fully_reduced) are proved per arity 0..K (K=3 quick, 4 thorough, extended past any arity threshold the code "
+               "obligations (the four group-by-key consolidation rules) are proved per arity 0..K (K=3 quick, 4 thorough, extended past any arity threshold the code "
                "compares a length against; nested n-ary children 0..2/3) and are reported as bounded-arity, never counted under `discharged`.")
 TECH = ("contract-based deductive verification: verification conditions generated on every run from the AST of the real functions in /repo/src "
         "(per concrete class, children replaced by their contracts = structural induction), discharged by z3/cvc5; counter-models replayed on the real code")
@@ -53,7 +53,7 @@ def main():
          "engines": [{"name": "pyvc", "path": "pyvc/", "serves_properties": sorted(CLAIMS),
                       "kind_free_text": "own verification-condition generator: symbolic execution of the real Python AST against sidecar contracts, z3 / cvc5 back ends, counter-model replay on the real code"}],
          "checks": [], "not_applicable": [],
-         "notes": "Known findings and fixed defects: known_findings.json. Three genuine defects were repaired in /repo with `fix:` commits (Power base-one shortcut; NthRoot repr; Point coordinate named self); one (NthRoot-of-NthPower rewrite) is recorded as a known finding because the test-suite pins it. Engine self-tests: ./check selftest (61 stored mutants), ./check benign (16 behaviour-preserving refactorings), seeded/SUMMARY.md (76 independently written breaking changes: 76 caught by some check, 74 by the check of their own property), ./check lemmas (Lean, 82 theorems), ./check speccheck."}
+         "notes": "Known findings and fixed defects: known_findings.json. Three genuine defects were repaired in /repo with `fix:` commits (Power base-one shortcut; NthRoot repr; Point coordinate named self); one (NthRoot-of-NthPower rewrite) is recorded as a known finding because the test-suite pins it. Engine self-tests: ./check selftest (61 stored mutants), ./check benign (16 behaviour-preserving refactorings), seeded/SUMMARY.md (76 independently written breaking changes: 76 caught by some check, 74 by the check of their own property), ./check lemmas (Lean, 84 theorems), ./check speccheck."}
     all_ids = [f"C{i:02d}" for i in range(1, 19)]
     for pid in all_ids:
         if pid in CLAIMS:
